@@ -150,7 +150,10 @@ def base_coverage(fr, rule):
         "tlc_wall_s": round(tlc.wall, 1),
         "build_wall_s": round(fr.build_wall, 1),
         "run_wall_s": round(fr.run_wall, 2),
-        "exhaustive": True,
+        # the programs are a (fixed + seeded) sample; for each of them the inputs up to the bound and
+        # the decision histories are enumerated completely
+        "exhaustive": False,
+        "exhaustive_part": "per program: every input of length <= k over its alphabet and every decision history",
     }
 
 
